@@ -16,6 +16,9 @@ Proof.
   - rewrite String.eqb_eq. intros ->. reflexivity.
 Qed.
 
+Lemma obs_eqb_bad x s : obs_eqb x (RBad s) = false.
+Proof. destruct x; reflexivity. Qed.
+
 (** facts about x = new a b used for every operator *)
 Record is_new (a b : Z) (x : rat) : Prop := {
   n_pos : 0 < rb x;
